@@ -254,6 +254,7 @@ type c30Run struct {
 	start  int64
 	leak   bool     // open C06 finding: skip increments with a mutating false condition
 	gone   []string // keys a shift claim returned: must be absent in the next read
+	strict bool     // after a claim: the remaining contents must be exactly the reference's
 	// evidence
 	indexBuilt, movedAfterBuild bool
 	pathsAfterMove              map[string]bool
@@ -336,6 +337,35 @@ func (c *c30Run) syncAfterMutation(where string) *pbt.Outcome {
 		}
 	}
 	c.gone = nil
+	if c.strict {
+		// a claim removes exactly what it returned (PatchExpired: nothing): every other
+		// record — expired or not, with or without expiry — must still be there, and the
+		// swamp disappears only when nothing at all is left
+		c.strict = false
+		var missing, surplus []string
+		for k, r := range c.recs {
+			if _, present := got[k]; !present {
+				missing = append(missing, fmt.Sprintf("%s(expiry %d rel., 0=none: %v)", k, r.e()-c.start, r.e() == 0))
+			}
+		}
+		for k := range got {
+			if c.recs[k] == nil {
+				surplus = append(surplus, k)
+			}
+		}
+		sort.Strings(missing)
+		sort.Strings(surplus)
+		if len(missing)+len(surplus) > 0 {
+			return c.fail("claim-contents", "%s: contents after the claim differ from the reference: missing %v, surplus %v (GetAll error: %v)", where, missing, surplus, err)
+		}
+		er, eerr, _, inc := Call(c.env, "IsSwampExist", &hydrapb.IsSwampExistRequest{IslandID: rig.Island(c.sn), SwampName: c.sn}, c.env.R.G.IsSwampExist)
+		if inc != nil {
+			return c.incident(where, inc)
+		}
+		if eerr != nil || (len(c.recs) > 0 && !er.GetIsExist()) {
+			return c.fail("claim-contents", "%s: IsSwampExist = %v (%v) although %d records must remain", where, er.GetIsExist(), eerr, len(c.recs))
+		}
+	}
 	for k := range c.recs {
 		if _, present := got[k]; !present {
 			delete(c.recs, k)
@@ -1012,6 +1042,7 @@ func runC30(h *RigHolder, leakOpen, resurrectOpen bool, wd time.Duration) func(C
 			case "claim":
 				claims++
 				o = c.claim(st.Claim)
+				c.strict = true
 			}
 			if o != nil {
 				o.Fail = where + ": " + o.Fail
